@@ -160,7 +160,7 @@ func TestC01(t *testing.T) {
 		})
 		o.Returned, o.ElapsedMs, o.Dump = ok, el.Milliseconds(), dump
 		if ok {
-			kok, _, _ := within(30*time.Second, cl.Kill)
+			kok, _, _ := within(300*time.Second, cl.Kill) // (well above the OS's TCP connect timeout: Kill dials the announced address)
 			o.KillReturned = kok
 		}
 		if sr != nil {
